@@ -1,4 +1,5 @@
 import PttVerif.Proofs.C10
+import PttVerif.Gen.PttConfig
 /-
 C10 — Comments are appended, never rewrite, and move the score by at most one.
 Property theorems only (helper lemmas: Proofs/C10.lean; ModifyDirLite and its int8 arithmetic: Model/C05.lean).
@@ -955,5 +956,45 @@ example :
     (runEv findLinear s0 evs).st.dir.bytes.getD 33 0 = 100 ∧ moves findLinear 0 s0 evs = 2 ∧
     (runEv findLinear s0 evs).pending = [] := by
   decide +kernel
+
+
+/-! #### site configuration: the switches of the comment path read their own keys
+
+`ptttype/config.go config()` is regenerated as data (`Gen/PttConfig.lean`). -/
+
+theorem applyConfig_filter (viper : List (String × Bool)) (lines : List ConfigLine) (c : Cfg) :
+    applyConfig lines viper c = applyConfig (lines.filter relevantLine) viper c := by
+  unfold applyConfig
+  induction lines generalizing c with
+  | nil => rfl
+  | cons l rest ih =>
+    by_cases h : relevantLine l = true
+    · simp [List.filter, h, ih]
+    · have hc : applyLine viper c l = c := by simp [applyLine, h]
+      simp [List.filter, h, hc, ih]
+
+/-- source fact (regenerated): the only lines of `config()` that assign OLDRECOMMEND or EDITPOST_SMARTMERGE are
+`X = setBoolConfig("X", X)`, once each. -/
+theorem comment_switch_lines :
+    Gen.PttConfig.configLines.filter relevantLine
+      = [("EDITPOST_SMARTMERGE", "setBoolConfig", "EDITPOST_SMARTMERGE", "EDITPOST_SMARTMERGE"),
+         ("OLDRECOMMEND", "setBoolConfig", "OLDRECOMMEND", "OLDRECOMMEND")] := by decide +kernel
+
+/-- for every configuration of the deployment and every earlier state of the switches: after `InitConfig` the
+comment layout follows the value set under OLDRECOMMEND and the append path the value under EDITPOST_SMARTMERGE
+(unchanged when unset) — no other key has any effect on them. -/
+theorem config_wiring (viper : List (String × Bool)) (c : Cfg) :
+    applyConfig Gen.PttConfig.configLines viper c
+      = { c with oldRecommend := (lookupKey viper "OLDRECOMMEND").getD c.oldRecommend,
+                 smartMerge := (lookupKey viper "EDITPOST_SMARTMERGE").getD c.smartMerge } := by
+  rw [applyConfig_filter, comment_switch_lines]
+  simp only [applyConfig, List.foldl, applyLine, relevantLine]
+  cases h1 : lookupKey viper "OLDRECOMMEND" <;> cases h2 : lookupKey viper "EDITPOST_SMARTMERGE" <;> simp
+
+/-- the broken wiring, as a witness: were OLDRECOMMEND read from its neighbour's key, a deployment that only lets
+guests comment would silently switch every comment to the old layout. -/
+theorem miswired_switch_follows_other_key :
+    (applyConfig [("OLDRECOMMEND", "setBoolConfig", "GUESTRECOMMEND", "OLDRECOMMEND")] [("GUESTRECOMMEND", true)]
+      { attr := 0, oldRecommend := false, smartMerge := false }).oldRecommend = true := by decide
 
 end PttVerif.C10.Props
